@@ -12,7 +12,7 @@ import itertools, json, os, random, subprocess, tempfile
 from vf import common, zcheck
 
 T = os.path.join(common.REPO, "tests")
-FILES = {"v1": os.path.join(T, "typedef.o"), "v2": os.path.join(T, "enum.o"), "v3": os.path.join(T, "bitcount.o"), "v4": os.path.join(T, "nontrivial-types.o"), "nx": "/nonexistent/file.o", "dir": T, "txt": os.path.join(T, "tests.sh")}
+FILES = {"v1": os.path.join(T, "typedef.o"), "v2": os.path.join(T, "enum.o"), "v3": os.path.join(T, "bitcount.o"), "v4": os.path.join(T, "nontrivial-types.o"), "v5": os.path.join(T, "y.o"), "nx": "/nonexistent/file.o", "dir": T, "txt": os.path.join(T, "tests.sh")}
 # queries yield integers/strings only, so that records are fully predictable from library renderings
 QUERIES_NOFILE = ["1", "(1, 2, 3)", "!()", "1 2", '"a" "b" "c"', "1 )", "0x10 0o7 0b1", "(1, 2, drop drop)", "(drop, 1)", '(1, 2) "x" add', "[1, 2] elem hex",
                   '"%( (1, 2) %)-%s"' , "(1, 2, 3) if ?2 then (swap) else ()", "", "dup", "dup dup", "(|A| A A)", "(|A B| B A)", "type", "(|A| A (1, 2) add)",
@@ -30,7 +30,9 @@ QUERIES_FILE = ["entry offset", "entry ?TAG_typedef offset", "entry ?TAG_base_ty
                 "entry", "unit", "entry attribute", "entry @AT_type", "[entry]", "entry ?TAG_typedef", "(|Dw| Dw)", "entry @AT_location",
                 "entry @AT_location elem", "entry ?AT_location attribute ?AT_location", "[entry attribute]", "entry ?AT_low_pc address", "entry ?root [child]",
                 "entry ?AT_location [attribute ?AT_location value]", "entry attribute ?AT_name dup value", "unit root", "entry (|D| D D name)",
-                "0 0 aset, 1 5 aset 7 9 aset add", "entry ?AT_location (@AT_location address, @AT_location elem offset)", "raw entry", "raw entry attribute"]
+                "0 0 aset, 1 5 aset 7 9 aset add", "entry ?AT_location (@AT_location address, @AT_location elem offset)", "raw entry", "raw entry attribute",
+                # ELF symbols: the CLI's own symbol line (index, value, size, type / binding / visibility of the file's machine, name)
+                "symbol", "[symbol (pos < 5)]", "symbol (pos < 3) (name, label, size)"]
 ARGS = [("-a", "x"), ("-a", "hello"), ("-a", "a%%b"), ("-a", "%s"), ("-a", "<%s>"), ("-a", "%( 1 %)"), ("-a", 'q"q'), ("-a", "b\\s"), ("-a", "100%"), ("-a", ""),
         ("-a", "two words"), ("-a", "%d=%x"), ("-a", "line\nbreak"), ("-a", "\\x41"), ("-a", "caf\u00e9"), ("--a", "1"), ("--a", "(1, 2)"), ("--a", "(1, 2, 3)"), ("--a", "!()"), ("--a", '"s"'), ("--a", '("p", "q")'), ("--a", "0x10"),
         ("--a", "[7, 8] elem"), ("--a", "1 )"), ("--a", "drop")]
@@ -118,6 +120,8 @@ def brief(v):
         return llop(v)
     if t == "as":
         return aset(v)
+    if t == "sym":
+        return elfsym(v)
     raise Unrenderable(t)
 
 
@@ -160,6 +164,20 @@ def aset(v):
     return b", ".join(hexsb(int(a)) + b".." + hexsb(int(a) + int(l)) for a, l in v["r"])
 
 
+def elfsym_line(idx, value, size, t, b, v, name):
+    """The CLI's line for an ELF symbol: index, value (hexadecimal, padded with zeros to 16 columns, prefix included; iostream prints
+    zero without prefix), size (decimal, right-aligned in 6 columns), type / binding / visibility in brief form, name."""
+    hv = b"0000000000000000" if value == 0 else b"0x" + (b"%x" % value).rjust(14, b"0")
+    return b"%d:\t" % idx + hv + b" " + (b"%d" % size).rjust(6) + b" " + t + b"\t" + b + b"\t" + v + b"\t" + name
+
+
+def elfsym(v):
+    p = v.get("props")
+    if not p or len(p) != 3 or any(x["t"] != "c" for x in p):
+        raise Unrenderable("symbol")
+    return elfsym_line(v["idx"], int(v["value"]), int(v["size"]), *[x["b"].encode("latin-1") for x in p], bytes.fromhex(v["name"]))
+
+
 def render(v):
     """The top-level (full) rendering of one yielded value; None if this oracle does not predict it."""
     try:
@@ -177,6 +195,8 @@ def render(v):
             return attr(v, b"\n\t")
         if t in ("q", "dw", "cu", "lle", "llo", "as"):
             return brief(v)
+        if t == "sym":
+            return elfsym(v)
         return None
     except Unrenderable:
         return None
@@ -285,7 +305,7 @@ def job(payload):
     for i in range(count):
         flags = [f for f in ("-q", "-s", "-c", "-H", "-h") if rng.random() < 0.3]
         nfiles = rng.choice([0, 0, 1, 1, 2, 3])
-        files = [FILES[rng.choice(["v1", "v1", "v2", "v3", "v3", "v4", "nx", "dir", "txt"])] for _ in range(nfiles)]
+        files = [FILES[rng.choice(["v1", "v1", "v2", "v3", "v3", "v4", "v5", "nx", "dir", "txt"])] for _ in range(nfiles)]
         query = rng.choice(QUERIES_FILE if files else QUERIES_NOFILE)
         args = [rng.choice(ARGS) for _ in range(rng.choice([0, 0, 1, 1, 2]))]
         how = rng.choice(["-e", "-f", "pos"])
@@ -401,7 +421,7 @@ def run(chk):
         "queries": len(QUERIES_FILE) + len(QUERIES_NOFILE), "argument_forms": len(ARGS), "file_kinds": sorted(FILES),
         "samples": samples[:6],
     })
-    chk.assumptions += ["under -c the count line of a combination whose execution raised is optional and may carry any number; the lines of all other combinations are exact", "records are predicted for integers, strings, sequences, DIEs, attributes, units, location expressions/operations, address sets and the Dwarf value; ELF symbols and abbreviation values are not rendered by this oracle"]
+    chk.assumptions += ["under -c the count line of a combination whose execution raised is optional and may carry any number; the lines of all other combinations are exact", "records are predicted for integers, strings, sequences, DIEs, attributes, units, location expressions/operations, address sets, ELF symbols and the Dwarf value; abbreviation values are not rendered by this oracle"]
     if tot.get("n", 0) < 500 or tot.get("stdout_compared", 0) < 200:
         chk.inconc("too few invocations")
 
